@@ -46,8 +46,10 @@ def reason_of(pr, code, tree_json):
         return 'named-constant-not-c'
     if pr == 'c89code' and re.search(r'\b(log)?gammaf?\(', code):
         return 'c89-gamma-by-name'
-    if re.search(r'(?<![\w.])(inf|nan)(?![\w(])', code):
+    if re.search(r'(?<![\w.])(inf|nan)[fl]?(?![\w(])', code):
         return 'nonfinite-literal'
+    if re.search(r'/\s*1(\.0)?[fl]?\s*/', code) or re.search(r'pow[fl]?\(1(\.0)?[fl]?/', code):
+        return 'reciprocal-function-rewritten-without-parentheses'
     if '"Complex' in tree_json or re.search(r'(?<![\w.])I(?![\w(])', code):
         return 'complex-value (outside the fragment)'
     return 'other'
